@@ -18,7 +18,7 @@ func main() {
 		c.Assume("outputs of these cases keep acknowledging (failure plans are bounded)")
 		poolmon.RunDirected(c, "C04")
 		poolmon.RunStress(c, "C04")
-		pipemon.RunProperty(c, "C04", pipemon.Plan{"hold": {22, 600}, "tiny": {12, 300}, "mix": {10, 250}, "directed": {18, 300}, "volume": {6, 60}}, true, nil)
+		pipemon.RunProperty(c, "C04", pipemon.Plan{"hold": {22, 600}, "tiny": {12, 300}, "mix": {10, 250}, "directed": {18, 300}, "volume": {6, 60}, "dlq-nosplit": {9, 150}}, true, nil)
 		if c.Counter("timeouts_injected") == 0 {
 			c.Fatal("no stream time-out was ever injected")
 		}
